@@ -47,6 +47,8 @@ def entityPool : List (Bytes × Bytes) := [(s "amp", s "&"), (s "lt", s "<"), (s
 def infoPool : List Bytes := [[], s "go", s "c++", s "x-y", s "é"]
 def codeLinePool : List Bytes := [s "x", s "  ind", s "a < b && c", s "```", s "~~~", s "*not em*", s "", s "# h", s "- l", s "> q", s "    deep", s "<div>", s "\\e", s "``` ", s "~~~~  ", s "````", s "``` x", s "\tt", s "a\tb", s " ````", s "   ~~~~", s "  ```"]
 def htmlLinePool : List Bytes := [s "<div>", s "</div>", s "<p class=\"c\">", s "*x*", s "text", s "<table><tr>", s "  <td>"]
+/-- words for intraword emphasis: every character is a letter, a digit, or a non-ASCII SYMBOL (not punctuation in 0.30) -/
+def gluePool : List Bytes := [s "a", s "Baz9", s "x1", s "é", s "ß", s "£", s "€5", s "©", s "×", s "→", s "5×", s "µm"]
 def labelPool : List Bytes := [s "l1", s "Lab 2", s "ß", s "x*y"]
 
 /-- A plain word (the first and last item of every inline sequence, so that delimiters flank properly). -/
@@ -60,8 +62,14 @@ partial def genItem : Nat → Nat → Bool → List Bytes → G → Inl × G
   | 0, _, _, _, g => genWord g
   | _, 0, _, _, g => genWord g
   | f + 1, d + 1, inLink, labels, g =>
-    let (k, g) := g.next 10
-    if k == 0 then let (c, g) := pickFrom g codePool; (.code c, g)
+    let (k, g) := g.next 11
+    if k == 10 then
+      let (a, g) := pickFrom g gluePool
+      let (b, g) := pickFrom g gluePool
+      let (c, g) := pickFrom g gluePool
+      let (st, g) := g.next 2
+      (.intra (st == 1) a b c, g)
+    else if k == 0 then let (c, g) := pickFrom g codePool; (.code c, g)
     else if k == 1 then let (ks, g) := genInls f d inLink labels false g; (.emph ks, g)
     else if k == 2 then let (ks, g) := genInls f d inLink labels false g; (.strong ks, g)
     else if k == 3 && !inLink then
@@ -202,8 +210,17 @@ partial def genTightItems : Nat → Nat → Nat → List Bytes → G → List (L
         let (its, g) := genTightItems f (d - 1) 1 labels g
         (if its.isEmpty then [] else [Blk.list none true its], g)
       else ([], g)
+    -- after a nested list: sometimes a thematic break or a fenced block and then ANOTHER paragraph of the same
+    -- (tight) item - it must still be rendered without <p>, although a nested container was entered and left
+    let (tl, g) := g.next 3
+    let (tail, g) :=
+      if sub.isEmpty || tl != 0 then (([] : List Blk), g)
+      else
+        let (w, g) := g.next 2
+        let (ks2, g) := genInls inlFuel d false labels true g
+        ((if w == 0 then Blk.hr else Blk.fenced [] [s "c"]) :: [Blk.para ks2], g)
     let (rest, g) := genTightItems f d m labels g
-    ((Blk.para ks :: sub) :: rest, g)
+    ((Blk.para ks :: sub ++ tail) :: rest, g)
 /-- Loose items: one or two blocks each, the first not an indented code block / thematic break. -/
 partial def genLooseItems : Nat → Nat → Nat → List Bytes → G → List (List Blk) × G
   | 0, _, _, _, g => ([], g)
@@ -252,6 +269,7 @@ def fInl : Inl → Bool
   | .autolink _ => true
   | .rawtag _ => true
   | .entity _ _ => true
+  | .intra _ _ _ _ => true
   | .hardbreak => true
   | .softbreak => true
 def fInls : List Inl → Bool
